@@ -196,8 +196,8 @@ func c13Dispatch(c *Ctx, ge *GuardEngine) {
 			ok := strings.Contains(joined, "call (consensus.Work).add({consensus.State}.Difficulty, call (consensus.Work).div64({consensus.State}.Difficulty, const:250))")
 			c.Check(ok, "clamp-shape", name+":adjust", c.P.Pos(fn.Pos()), "v2 era: the returned difficulty is one of: computed value, Difficulty - Difficulty/250, Difficulty + Difficulty/250")
 		default:
-			lo := strings.Contains(joined, "call consensus.mulTargetFrac({consensus.State}.ChildTarget, const:1004, const:1000)") || mustRe(`call consensus\.\w+\(\{consensus\.State\}\.ChildTarget, const:1004, const:1000\)`).MatchString(joined)
-			hi := mustRe(`call consensus\.\w+\(\{consensus\.State\}\.ChildTarget, const:1000, const:1004\)`).MatchString(joined)
+			lo := mustRe(`call consensus\.\w+\((\{consensus\.State\}\.ChildTarget, )?const:1004, const:1000(, \{consensus\.State\}\.ChildTarget)?\)`).MatchString(joined)
+			hi := mustRe(`call consensus\.\w+\((\{consensus\.State\}\.ChildTarget, )?const:1000, const:1004(, \{consensus\.State\}\.ChildTarget)?\)`).MatchString(joined)
 			c.Check(lo && hi, "clamp-shape", name+":adjust", c.P.Pos(fn.Pos()), ifElse(lo && hi, "Oak era: the returned target is clamped to ChildTarget*1004/1000 and ChildTarget*1000/1004", "Oak-era adjustment returns "+joinShort(as)+" without the 0.4% clamps"))
 			// the unclamped return is only at the ASIC reset height
 			gs := ge.Guards(fn, nil, nil, nil, 0, map[*ssa.Function]int{})
